@@ -627,8 +627,7 @@ Qed.
 
 Lemma closer_allow_ans t a c : fst (fst (closer_allow t a c)) = fst (fst (closer_allow t false c)).
 Proof.
-  destruct c as [|t0 s0 n0|]; cbn [closer_allow]; try reflexivity.
-  destruct (tc_check t t0) as [[t1 b] x]. reflexivity.
+  destruct c as [|t0 s0 n0|]; cbn [closer_allow]; reflexivity.
 Qed.
 
 Lemma good_snoc_quiet now s s1 o q : good now s (s1, o) -> cview q = [] -> good now s (s1, o ++ q).
@@ -643,7 +642,7 @@ Proof.
   destruct (s_mode st); try (apply good_same; reflexivity).
   destruct (l_disabled (cfg s)); [apply good_same; reflexivity|].
   destruct (negb (c_has_run c)); [apply good_same; reflexivity|].
-  match goal with |- good _ _ (let '(s1, admitted, o1) := ?g in _) =>
+  match goal with |- good _ _ (let (_, _) := ?g in _) =>
     assert (G : good (clock s) s (fst (fst g), snd g));
       [| destruct g as [[s1 admitted] o1]; cbn [fst snd] in G ] end.
   { destruct (negb (is_open s)); [apply good_same; reflexivity|].
@@ -675,4 +674,392 @@ Proof.
     cbn [fst snd] in G3. rewrite <- !app_assoc in G3. exact G3. }
   apply (good_post _ _ _ _ _ _ G); [reflexivity | reflexivity |].
   rewrite cview_app. cbn. apply app_nil_r.
+Qed.
+
+(* ---------- one step ---------- *)
+Definition ev_view (ev : event) (o : list obs) : list cev :=
+  match ev with TimerFire k => [CFire k] | _ => cview o end.
+
+Lemma closer_view_cons ev o tr : closer_view ((ev, o) :: tr) = ev_view ev o ++ closer_view tr.
+Proof. unfold closer_view. cbn [flat_map fst snd]. destruct ev; reflexivity. Qed.
+
+Lemma step_good st s ev :
+  let r := step st s ev in
+  cls (fst r) = closer_after (cls s) (ev_view ev (snd r)) /\
+  Forall (cev_at (clock s)) (ev_view ev (snd r)) /\
+  clock (fst r) = match ev with Tick d => clock s + d | _ => clock s end.
+Proof.
+  cbn zeta. rewrite step_eq. cbn [fst snd].
+  assert (X : forall r, good (clock s) s r ->
+     cls (fst r) = closer_after (cls s) (cview (snd r ++ [reading st (fst r)])) /\
+     Forall (cev_at (clock s)) (cview (snd r ++ [reading st (fst r)])) /\
+     clock (fst r) = clock s).
+  { intros r (A & B & C). rewrite cview_app, cview_reading, app_nil_r. auto. }
+  destruct ev as [id c|id e|id f|id| | |l|d|k]; cbn [step_core ev_view].
+  - apply X, begin_good.
+  - apply X, end_run_good.
+  - apply X, end_fb_good.
+  - apply X. unfold cancel_call. destruct (find_call id s); apply good_same; reflexivity.
+  - apply X, open_circuit_good.
+  - apply X, close_circuit_good.
+  - apply X, good_same; reflexivity.
+  - cbn [fst snd app]. rewrite cview_reading. cbn. auto.
+  - cbn [fst snd app]. cbn. repeat split. constructor; [exact I | constructor].
+Qed.
+
+Lemma closer_fed_by_observations (st : static) : forall s h,
+  cls (state_after st s h) = closer_after (cls s) (closer_view (trace_from st s h)).
+Proof.
+  intros s h. revert s. induction h as [|ev h IH]; intros s; [reflexivity|].
+  unfold state_after in *. cbn [fold_left trace_from].
+  destruct (step_good st s ev) as (A & _ & _). cbn zeta in A.
+  destruct (step st s ev) as [s1 o]. cbn [fst snd] in *.
+  rewrite closer_view_cons. unfold closer_after in *. rewrite fold_left_app, <- A. apply IH.
+Qed.
+
+(* ====================================================================== *)
+(* C03: nothing is admitted within SleepWindow of the opening              *)
+(* ====================================================================== *)
+Definition lo_step (acc : option Z) (o : obs) : option Z :=
+  match o with OCircEv WCloser Opened t => Some t | _ => acc end.
+Definition loc_step (acc : option Z) (e : cev) : option Z :=
+  match e with CCirc Opened t => Some t | _ => acc end.
+
+Lemma lo_cview o : forall acc, fold_left lo_step o acc = fold_left loc_step (cview o) acc.
+Proof.
+  induction o as [|x o IH]; intros acc; [reflexivity|].
+  rewrite cview_cons, fold_left_app. cbn [fold_left]. rewrite IH. f_equal.
+  destruct x; try reflexivity.
+  - destruct w; reflexivity.
+  - destruct w; try reflexivity.
+  - destruct q; reflexivity.
+Qed.
+
+Lemma lo_ev_view st s ev acc :
+  fold_left lo_step (snd (step st s ev)) acc = fold_left loc_step (ev_view ev (snd (step st s ev))) acc.
+Proof.
+  destruct ev; try apply lo_cview.
+  rewrite step_eq. cbn [step_core fst snd app ev_view fold_left]. unfold reading.
+  destruct (s_mode st); reflexivity.
+Qed.
+
+(* the closer is the hystrix closer with this sleep window, and its check stays shut until
+   SleepWindow after the latest opening *)
+Definition sw_inv (sleep clk : Z) (c : closer) (acc : option Z) : Prop :=
+  exists t succ need, c = ClHystrix t succ need /\ tc_sleep t = sleep /\
+    forall T, acc = Some T -> T + sleep <= tc_next t /\ T <= clk.
+
+Lemma sw_feed sleep clk c acc e :
+  cev_at clk e -> sw_inv sleep clk c acc -> sw_inv sleep clk (closer_feed c e) (loc_step acc e).
+Proof.
+  intros At (t & succ & need & -> & Sl & H).
+  destruct e as [k|k t'|t'|k]; cbn [closer_feed loc_step cev_at] in *.
+  - destruct k; cbn [closer_run]; eexists _, _, _; repeat split; try reflexivity; try exact Sl; apply H; assumption.
+  - subst t'. cbn [closer_circ tc_sleep_start tc_rearm fst].
+    eexists _, _, _. split; [reflexivity|]. cbn [tc_sleep tc_next]. split; [exact Sl|].
+    intros T E. destruct k.
+    + injection E as <-. lia.
+    + specialize (H T E). lia.
+  - subst t'. cbn [closer_allow]. unfold tc_check.
+    destruct (tc_fastfail t); [cbn [fst]; eexists _, _, _; repeat split; try reflexivity; try exact Sl; apply H; assumption|].
+    destruct (clk <? tc_next t); [cbn [fst]; eexists _, _, _; repeat split; try reflexivity; try exact Sl; apply H; assumption|].
+    cbn [tc_budget tc_count].
+    destruct (tc_budget t <=? tc_count t + 1).
+    + cbn [tc_rearm fst tc_sleep tc_version tc_timers tc_budget].
+      eexists _, _, _. split; [reflexivity|]. cbn [tc_sleep tc_next]. split; [exact Sl|].
+      intros T E. specialize (H T E). lia.
+    + cbn [fst]. eexists _, _, _. split; [reflexivity|]. cbn [tc_sleep tc_next]. split; [exact Sl|].
+      exact H.
+  - cbn [closer_fire]. unfold tc_fire.
+    destruct (nth_error (tc_timers t) k) as [v|]; [destruct (v =? tc_version t)|];
+      eexists _, _, _; (split; [reflexivity|]); cbn [tc_sleep tc_next]; (split; [exact Sl | exact H]).
+Qed.
+
+Lemma sw_feed_all sleep clk v : forall c acc,
+  Forall (cev_at clk) v -> sw_inv sleep clk c acc ->
+  sw_inv sleep clk (closer_after c v) (fold_left loc_step v acc).
+Proof.
+  induction v as [|e v IH]; intros c acc F I; [exact I|].
+  inversion_clear F as [|? ? Fe Fv]. unfold closer_after in *. cbn [fold_left].
+  apply IH; [exact Fv|]. apply sw_feed; assumption.
+Qed.
+
+Lemma sw_step st sleep s acc ev :
+  match ev with Tick d => 0 <= d | _ => True end ->
+  sw_inv sleep (clock s) (cls s) acc ->
+  sw_inv sleep (clock (fst (step st s ev))) (cls (fst (step st s ev)))
+         (fold_left lo_step (snd (step st s ev)) acc).
+Proof.
+  intros Tk I. rewrite lo_ev_view.
+  destruct (step_good st s ev) as (A & B & C). cbn zeta in *. rewrite A.
+  pose proof (sw_feed_all sleep (clock s) _ _ _ B I) as (t & succ & need & E1 & E2 & E3).
+  exists t, succ, need. split; [exact E1|]. split; [exact E2|].
+  intros T ET. specialize (E3 T ET). rewrite C. destruct ev; lia.
+Qed.
+
+Lemma sw_history st sleep : forall h s acc,
+  ticks_forward h -> sw_inv sleep (clock s) (cls s) acc ->
+  sw_inv sleep (clock (state_after st s h)) (cls (state_after st s h))
+         (fold_left lo_step (all_obs (trace_from st s h)) acc).
+Proof.
+  induction h as [|ev h IH]; intros s acc TF I; [exact I|].
+  inversion_clear TF as [|? ? Tev Th].
+  unfold state_after in *. cbn [fold_left trace_from].
+  pose proof (sw_step st sleep s acc ev Tev I) as I1.
+  destruct (step st s ev) as [s1 o]. cbn [fst snd] in *.
+  unfold all_obs. cbn [flat_map snd]. rewrite fold_left_app.
+  apply IH; assumption.
+Qed.
+
+Lemma sleep_window (st : static) : forall l op sleep half req t0 h T c,
+  let s0 := init_state l op (closer_init_hystrix sleep half req) t0 in
+  let s := state_after st s0 h in
+  ticks_forward h ->
+  flag s = true -> last_opened (all_obs (trace_from st s0 h)) = Some T ->
+  clock s < T + sleep -> is_open s = true ->
+  shed_by_open s c = true.
+Proof.
+  intros l op sleep half req t0 h T c s0 s TF _ LO Lt O.
+  assert (I0 : sw_inv sleep (clock s0) (cls s0) None).
+  { exists (tc_init sleep half), 0, req. repeat split; try reflexivity; discriminate. }
+  pose proof (sw_history st sleep h s0 None TF I0) as (t & succ & need & E1 & E2 & E3).
+  fold s in E1, E3. change (fold_left lo_step ?x None) with (last_opened x) in E3.
+  specialize (E3 T LO).
+  unfold shed_by_open, closer_admits. rewrite O, E1. cbn [closer_allow]. unfold tc_check.
+  destruct (tc_fastfail t); [cbn; apply orb_true_r|].
+  destruct (clock s <? tc_next t) eqn:E; [cbn; apply orb_true_r | lia].
+Qed.
+
+(* ====================================================================== *)
+(* C03: at most max(1, HalfOpenAttempts) admissions in any span < SleepWindow *)
+(* ====================================================================== *)
+Definition probe_of (id : nat) (o : list obs) : list Z :=
+  match o with
+  | OAsked QAllow t :: rest => if hasinv id rest then [t] else []
+  | _ => []
+  end.
+
+Lemma hasinv_reading id st s : hasinv id [reading st s] = false.
+Proof. unfold reading. destruct (s_mode st); reflexivity. Qed.
+Lemma hasinv_cons id x l :
+  hasinv id (x :: l) = (match x with ORunInvoked i _ _ => Nat.eqb i id | _ => false end) || hasinv id l.
+Proof. reflexivity. Qed.
+Lemma hasinv_timers id l : hasinv id (map OTimer l) = false.
+Proof. apply existsb_map_false. reflexivity. Qed.
+
+(* a Begin segment shows an admitted probe only when the closer's Allow said yes, and then
+   the closer is left exactly as Allow left it *)
+Lemma begin_probe st id c s :
+  let r := step st s (Begin id c) in
+  admitted_probe (Begin id c, snd r) = [] \/
+  (admitted_probe (Begin id c, snd r) = [clock s] /\ closer_admits s c = true /\
+   cls (fst r) = fst (fst (closer_allow (clock s) (c_allow c) (cls s)))).
+Proof.
+  cbn zeta. rewrite step_eq. cbn [step_core fst snd].
+  change (admitted_probe (Begin id c, ?o)) with (probe_of id o).
+  unfold begin_call.
+  destruct (s_mode st); try (left; reflexivity).
+  destruct (l_disabled (cfg s)); [left; reflexivity|].
+  destruct (negb (c_has_run c)); [left; reflexivity|].
+  set (cs0 := {| cs_id := id; cs_call := c; cs_phase := PPass; cs_done := c_done c |}).
+  destruct (negb (is_open s)).
+  { (* closed: Allow is not consulted *)
+    left. cbn [negb app].
+    destruct (opener_prevent (c_prevent c) (opn s)).
+    { destruct (fallback_stage st cs0 VCircuitOpen false false s) as [s3 o3]. reflexivity. }
+    destruct ((0 <=? l_max (cfg s)) && (l_max (cfg s) <? cmds s + 1)).
+    { destruct (emit_run st KReject (clock s) None s) as [s2 o2].
+      destruct (fallback_stage st cs0 VThrottled false false s2) as [s3 o3]. reflexivity. }
+    reflexivity. }
+  destruct (l_force_open (cfg s)).
+  { left. cbn [negb app]. unfold emit_run, run_collectors. cbn [map].
+    destruct (fallback_stage st cs0 VCircuitOpen false false _) as [s3 o3]. reflexivity. }
+  unfold closer_admits.
+  destruct (closer_allow (clock s) (c_allow c) (cls s)) as [[cl1 b] timers]. cbn [fst snd].
+  destruct b; cbn [negb].
+  2:{ left.
+      pose proof (emit_run_hasinv id st KShort (clock s) None
+                    (set_logic s (opn s) cl1)) as H2.
+      destruct (emit_run st KShort (clock s) None (set_logic s (opn s) cl1)) as [s2 o2].
+      destruct (fallback_facts st cs0 VCircuitOpen false false s2) as (_ & _ & _ & _ & _ & _ & _ & H3).
+      cbn zeta in H3. specialize (H3 id).
+      destruct (fallback_stage st cs0 VCircuitOpen false false s2) as [s3 o3].
+      cbn [fst snd app probe_of] in *.
+      rewrite !hasinv_app, hasinv_timers, H2, H3, hasinv_reading. reflexivity. }
+  destruct (opener_prevent (c_prevent c) (opn (set_logic s (opn s) cl1))).
+  { left.
+    destruct (fallback_facts st cs0 VCircuitOpen false false (set_logic s (opn s) cl1))
+      as (_ & _ & _ & _ & _ & _ & _ & H3).
+    cbn zeta in H3. specialize (H3 id).
+    destruct (fallback_stage st cs0 VCircuitOpen false false (set_logic s (opn s) cl1)) as [s3 o3].
+    cbn [fst snd app probe_of] in *.
+    rewrite !hasinv_app, hasinv_timers, hasinv_cons, H3, hasinv_reading. reflexivity. }
+  destruct ((0 <=? l_max (cfg (set_logic s (opn s) cl1))) &&
+            (l_max (cfg (set_logic s (opn s) cl1)) <? cmds (set_logic s (opn s) cl1) + 1)).
+  { left.
+    pose proof (emit_run_hasinv id st KReject (clock s) None (set_logic s (opn s) cl1)) as H2.
+    destruct (emit_run st KReject (clock s) None (set_logic s (opn s) cl1)) as [s2 o2].
+    destruct (fallback_facts st cs0 VThrottled false false s2) as (_ & _ & _ & _ & _ & _ & _ & H3).
+    cbn zeta in H3. specialize (H3 id).
+    destruct (fallback_stage st cs0 VThrottled false false s2) as [s3 o3].
+    cbn [fst snd app probe_of] in *.
+    rewrite !hasinv_app, hasinv_timers, hasinv_cons, hasinv_app, H2, H3, hasinv_reading. reflexivity. }
+  right. cbn [fst snd app probe_of].
+  rewrite !hasinv_app, hasinv_timers, !hasinv_cons, Nat.eqb_refl.
+  cbn [orb]. repeat split; reflexivity.
+Qed.
+
+Definition spaced (K : nat) (sleep : Z) (A : list Z) : Prop :=
+  forall i, (i + K < length A)%nat -> sleep <= nth (i + K) A 0 - nth i A 0.
+
+(* A: the admitted probe stamps so far.  All but (at most) the last tc_count of them were
+   admitted no later than the latest re-arm, so they lie a full sleep window before the
+   instant the check opens again *)
+Definition bp_inv (sleep half clk : Z) (c : closer) (A : list Z) : Prop :=
+  exists t succ need, c = ClHystrix t succ need /\ tc_sleep t = sleep /\ tc_budget t = half /\
+    0 <= tc_count t < Z.max 1 half /\
+    Forall (fun a => a <= clk) A /\
+    (forall j, Z.of_nat j + tc_count t < Z.of_nat (length A) -> nth j A 0 + sleep <= tc_next t) /\
+    spaced (Z.to_nat (Z.max 1 half)) sleep A.
+
+Lemma Forall_nth_le clk (A : list Z) j :
+  Forall (fun a => a <= clk) A -> (j < length A)%nat -> nth j A 0 <= clk.
+Proof.
+  intros F L. rewrite Forall_forall in F. apply F. apply nth_In. exact L.
+Qed.
+
+Lemma bp_feed sleep half clk c A e :
+  cev_at clk e -> bp_inv sleep half clk c A -> bp_inv sleep half clk (closer_feed c e) A.
+Proof.
+  intros At (t & succ & need & -> & Sl & Bu & Cn & Le & Nx & Sp).
+  destruct e as [k|k t'|t'|k]; cbn [closer_feed cev_at] in *.
+  - destruct k; cbn [closer_run]; exists t; eexists _, _; repeat split; try reflexivity; try assumption; lia.
+  - subst t'. cbn [closer_circ tc_sleep_start tc_rearm fst].
+    eexists _, _, _. split; [reflexivity|]. cbn [tc_sleep tc_next tc_budget tc_count].
+    repeat split; try assumption; try lia.
+    intros j Hj. pose proof (Forall_nth_le clk A j Le). lia.
+  - subst t'. cbn [closer_allow]. unfold tc_check.
+    destruct (tc_fastfail t);
+      [cbn [fst]; exists t; eexists _, _; repeat split; try reflexivity; try assumption; lia|].
+    destruct (clk <? tc_next t);
+      [cbn [fst]; exists t; eexists _, _; repeat split; try reflexivity; try assumption; lia|].
+    cbn [tc_budget tc_count].
+    destruct (tc_budget t <=? tc_count t + 1) eqn:B.
+    + cbn [tc_rearm fst tc_sleep tc_version tc_timers tc_budget].
+      eexists _, _, _. split; [reflexivity|]. cbn [tc_sleep tc_next tc_budget tc_count].
+      repeat split; try assumption; try lia.
+      intros j Hj. pose proof (Forall_nth_le clk A j Le). lia.
+    + cbn [fst]. eexists _, _, _. split; [reflexivity|]. cbn [tc_sleep tc_next tc_budget tc_count].
+      repeat split; try assumption; try lia.
+      intros j Hj. apply Nx. lia.
+  - cbn [closer_fire]. unfold tc_fire.
+    destruct (nth_error (tc_timers t) k) as [v|]; [destruct (v =? tc_version t)|];
+      eexists _, _, _; (split; [reflexivity|]); cbn [tc_sleep tc_next tc_budget tc_count];
+      repeat split; try assumption; lia.
+Qed.
+
+Lemma bp_feed_all sleep half clk A v : forall c,
+  Forall (cev_at clk) v -> bp_inv sleep half clk c A -> bp_inv sleep half clk (closer_after c v) A.
+Proof.
+  induction v as [|e v IH]; intros c F I; [exact I|].
+  inversion_clear F as [|? ? Fe Fv]. unfold closer_after in *. cbn [fold_left].
+  apply IH; [exact Fv|]. apply bp_feed; assumption.
+Qed.
+
+Lemma spaced_snoc K sleep A t :
+  (1 <= K)%nat -> spaced K sleep A ->
+  (forall i, (i + K = length A)%nat -> nth i A 0 + sleep <= t) ->
+  spaced K sleep (A ++ [t]).
+Proof.
+  intros HK Sp New i Hi. rewrite app_length in Hi. cbn [length] in Hi.
+  destruct (Nat.eq_dec (i + K) (length A)) as [E|NE].
+  - rewrite (@app_nth1 _ A [t] 0 i) by lia. rewrite app_nth2 by lia.
+    replace (i + K - length A)%nat with 0%nat by lia. cbn [nth].
+    specialize (New i E). lia.
+  - rewrite !app_nth1 by lia. apply Sp. lia.
+Qed.
+
+Lemma bp_admit sleep half clk c A ans :
+  bp_inv sleep half clk c A ->
+  snd (fst (closer_allow clk ans c)) = true ->
+  bp_inv sleep half clk (fst (fst (closer_allow clk ans c))) (A ++ [clk]).
+Proof.
+  intros (t & succ & need & -> & Sl & Bu & Cn & Le & Nx & Sp). cbn [closer_allow]. unfold tc_check.
+  destruct (tc_fastfail t); [cbn; discriminate|].
+  destruct (clk <? tc_next t) eqn:Lt; [cbn; discriminate|].
+  intros _.
+  assert (Le' : Forall (fun a => a <= clk) (A ++ [clk])).
+  { apply Forall_app. split; [exact Le|]. constructor; [lia | constructor]. }
+  assert (Sp' : spaced (Z.to_nat (Z.max 1 half)) sleep (A ++ [clk])).
+  { apply spaced_snoc; [lia | exact Sp |]. intros i Hi.
+    assert (nth i A 0 + sleep <= tc_next t) by (apply Nx; lia). lia. }
+  cbn [tc_budget tc_count].
+  destruct (tc_budget t <=? tc_count t + 1) eqn:B.
+  - cbn [tc_rearm fst tc_sleep tc_version tc_timers tc_budget].
+    eexists _, _, _. split; [reflexivity|]. cbn [tc_sleep tc_next tc_budget tc_count].
+    repeat split; try assumption; try lia.
+    intros j Hj. pose proof (Forall_nth_le clk (A ++ [clk]) j Le'). lia.
+  - cbn [fst]. eexists _, _, _. split; [reflexivity|]. cbn [tc_sleep tc_next tc_budget tc_count].
+    repeat split; try assumption; try lia.
+    intros j Hj. rewrite app_length in Hj. cbn [length] in Hj.
+    rewrite app_nth1 by lia. apply Nx. lia.
+Qed.
+
+Lemma bp_tick sleep half clk d c A :
+  0 <= d -> bp_inv sleep half clk c A -> bp_inv sleep half (clk + d) c A.
+Proof.
+  intros Hd (t & succ & need & -> & Sl & Bu & Cn & Le & Nx & Sp).
+  exists t, succ, need. repeat split; try assumption; try lia.
+  eapply Forall_impl; [|exact Le]. cbn. intros; lia.
+Qed.
+
+Lemma bp_step st sleep half s A ev :
+  match ev with Tick d => 0 <= d | _ => True end ->
+  bp_inv sleep half (clock s) (cls s) A ->
+  bp_inv sleep half (clock (fst (step st s ev))) (cls (fst (step st s ev)))
+         (A ++ admitted_probe (ev, snd (step st s ev))).
+Proof.
+  intros Tk I.
+  destruct (step_good st s ev) as (G1 & G2 & G3). cbn zeta in *.
+  assert (Q : admitted_probe (ev, snd (step st s ev)) = [] ->
+              bp_inv sleep half (clock (fst (step st s ev))) (cls (fst (step st s ev)))
+                     (A ++ admitted_probe (ev, snd (step st s ev)))).
+  { intros ->. rewrite app_nil_r, G1, G3.
+    pose proof (bp_feed_all sleep half (clock s) A _ _ G2 I) as I1.
+    destruct ev; try exact I1. apply bp_tick; assumption. }
+  destruct ev as [id c|id e|id f|id| | |l|d|k]; try (apply Q; reflexivity).
+  destruct (begin_probe st id c s) as [E|(E1 & E2 & E3)]; cbn zeta in *; [apply Q, E|].
+  rewrite E1, E3, G3. apply bp_admit; [exact I | exact E2].
+Qed.
+
+Lemma bp_history st sleep half : forall h s A,
+  ticks_forward h -> bp_inv sleep half (clock s) (cls s) A ->
+  bp_inv sleep half (clock (state_after st s h)) (cls (state_after st s h))
+         (A ++ probe_stamps (trace_from st s h)).
+Proof.
+  induction h as [|ev h IH]; intros s A TF I; [cbn; rewrite app_nil_r; exact I|].
+  inversion_clear TF as [|? ? Tev Th].
+  unfold state_after in *. cbn [fold_left trace_from].
+  pose proof (bp_step st sleep half s A ev Tev I) as I1.
+  destruct (step st s ev) as [s1 o]. cbn [fst snd] in *.
+  unfold probe_stamps. cbn [flat_map]. rewrite app_assoc.
+  apply IH; assumption.
+Qed.
+
+Lemma budget_per_span (st : static) : forall l op sleep half req t0 h i,
+  let s0 := init_state l op (closer_init_hystrix sleep half req) t0 in
+  let A := probe_stamps (trace_from st s0 h) in
+  ticks_forward h ->
+  (i + Z.to_nat (Z.max 1 half) < length A)%nat ->
+  sleep <= nth (i + Z.to_nat (Z.max 1 half)) A 0 - nth i A 0.
+Proof.
+  intros l op sleep half req t0 h i s0 A TF Hi.
+  assert (I0 : bp_inv sleep half (clock s0) (cls s0) []).
+  { exists (tc_init sleep half), 0, req.
+    unfold tc_init. cbn [tc_sleep tc_budget tc_count tc_next length].
+    repeat split; try reflexivity; try lia.
+    - constructor.
+    - intros j Hj. cbn [length] in Hj. lia. }
+  pose proof (bp_history st sleep half h s0 [] TF I0) as (t & succ & need & _ & _ & _ & _ & _ & _ & Sp).
+  cbn [app] in Sp. apply Sp. exact Hi.
 Qed.
